@@ -8,9 +8,13 @@ Decided clause:
         (out > in and out - in < len; in > out and in - out < len). Signing moves the message with
         memmove before anything else is written to the signed-message buffer; opening copies the
         message out with memmove only. The four secretbox functions agree (E7).
-NOT decided: equality of outputs for every overlap offset (behavioural); read-after-write hazards
-inside the stream / AEAD cores under in == out (the planned E8 rule was dropped: it could not be
-validated both ways with a realistic breaking edit, see DESIGN.md); assembly cores.
+  R13.2 (E8 + E9) no read-after-write hazard in the cores that are documented to work in place: in the
+        AES-GCM generic encrypt / decrypt loops, their block helpers and the C stream-cipher cores,
+        no read through the input pointer can follow - within one generation of the loop index - a
+        write through the output pointer to an overlapping byte range (extents of the helpers from
+        scalar evolution). With input == output such a read would see the function's own output.
+NOT decided: equality of outputs for every overlap offset (behavioural); hazards in the assembly
+cores and in accesses whose symbolic base cannot be put in linear form.
 """
 from .. import terms as T
 from ..build import AnalysisBroken
@@ -103,5 +107,49 @@ def run(ctx, chk):
             ok = all(e.kind == "call" and e.callee_name() == callee for e in wr)
             chk.ob("R13.1-deleg", fn, "output is written only by the overlap-normalising %s" % callee, ok,
                    loc=fn.loc(wr[0].iid) if wr else fn.loc(), path=None if ok else p, key="R13.1-deleg %s" % name)
+    hazard_rule(ctx, prog, chk)
 
 
+# (function, unit substring, name of the output pointer parameter, name of the input pointer parameter)
+INPLACE_CORES = [
+    ("aes_gcm_decrypt_generic", "aes256gcm/aesni", "dst", "src"), ("aes_gcm_encrypt_generic", "aes256gcm/aesni", "dst", "src"),
+    ("encrypt_xor_wide", "aes256gcm/aesni", "dst", "src"), ("encrypt_xor_block", "aes256gcm/aesni", "dst", "src"),
+    ("chacha20_encrypt_bytes", "chacha20/ref/", "c", "m"), ("chacha20_encrypt_bytes", "chacha20_dolbeau-ssse3", "c", "m"),
+    ("chacha20_encrypt_bytes", "chacha20_dolbeau-avx2", "c", "m"), ("salsa20_encrypt_bytes", "salsa20_xmm6int-avx2", "c", "m"),
+    ("salsa20_encrypt_bytes", "salsa20_xmm6int-sse2", "c", "m"), ("stream_ref_xor_ic", "salsa20/ref/", "c", "m"),
+]
+
+
+def hazard_rule(ctx, prog, chk):
+    from .. import hazard
+    hz = hazard.Hazards(ctx, prog)
+    nfn = nacc = 0
+    for name, usub, dname, sname_ in INPLACE_CORES:
+        fns = [f for f in prog.functions() if f.name == name and usub in f.unit and not f.decl]
+        if not fns:
+            continue
+        fn = fns[0]
+        dst, src = fn.param_index(dname), fn.param_index(sname_)
+        if dst is None or src is None:
+            raise AnalysisBroken("R13.2: %s has no parameters named %s / %s" % (name, dname, sname_))
+        acc, bad = hz.hazards(fn, dst, src)
+        nw = sum(1 for a in acc if a[1] == "W")
+        nr = sum(1 for a in acc if a[1] == "R")
+        if not nw or not nr:
+            continue
+        nfn += 1
+        nacc += nw + nr
+        for w, r in bad:
+            chk.ob("R13.2", fn, "no input read follows an overlapping output write in the same loop generation", False,
+                   loc=fn.loc(r[0]), detail="%s at %s writes out[%s%+d .. %+d); %s at %s then reads in[%s%+d ..%s): with in == out it "
+                   "reads the function's own output" % (w[5], fn.loc(w[0]), _base(fn, w[2]), w[3], w[4], r[5], fn.loc(r[0]),
+                                                         _base(fn, r[2]), r[3], "" if r[4] is None else " %+d" % r[4]),
+                   key="R13.2 %s %s" % (name, usub))
+        chk.ob("R13.2", fn, "%d output writes and %d input reads in linear form: no read-after-write hazard" % (nw, nr), not bad,
+               key="R13.2 %s %s summary" % (name, usub))
+    chk.floor("R13.2", "in-place cores with linearised accesses", nfn, 4)
+    chk.floor("R13.2", "linearised accesses", nacc, 30)
+
+
+def _base(fn, base):
+    return " + ".join("%s%s" % ("" if s == 1 else "%d*" % s, fn.insts[v].get("name", "v%d" % v)) for v, s in sorted(base)) or "0"
